@@ -25,7 +25,10 @@ pub(crate) fn image_region_to_frame(
     let frame_header = frame.header();
     let full_frame_region = Region::with_size(frame_header.width, frame_header.height);
 
-    let frame_region = if frame_header.frame_type == FrameType::ReferenceOnly {
+    // Patches may refer to any part of the frame, regardless of the requested region.
+    let can_be_patch_source = frame_header.frame_type == FrameType::ReferenceOnly
+        || (frame_header.can_reference() && frame_header.save_before_ct);
+    let frame_region = if can_be_patch_source {
         full_frame_region
     } else {
         let region = apply_orientation_to_image_region(image_header, image_region);
